@@ -1,4 +1,5 @@
 import SrProofs.Thermal
+import SrProofs.LogProfile
 
 /-!
 # C13 — every wall boundary-condition kind reproduces the exact steady cylinder solution
@@ -26,6 +27,24 @@ theorem steady_profile (P : Prob ℝ) (T : GField ℝ) (Φ : ℝ)
     (hrh : ∀ i, 1 ≤ i → i ≤ P.N → P.rh i ≠ 0) :
     ∀ i, i ≤ P.N → T (i+1) 0 0 = T 1 0 0 + Φ * ∑ m ∈ Finset.Icc 1 i, 1 / P.rh m :=
   SrModel.Thermal.steady_profile P T Φ hflux hrh
+
+/-- **midpoint_log.** One radial cell: `|dr/r_{m+½} − ln(r_{m+1}/r_m)| ≤ 2x³/(1−x)` with
+`x = dr/(2 r_{m+½}) < 1` — the discrete increment of `steady_profile` is the logarithmic increment
+up to `O(dr³)`. -/
+theorem midpoint_log (r dr : ℝ) (hr : 0 < r) (hdr : 0 < dr) :
+    |dr / (r + dr / 2) - Real.log ((r + dr) / r)|
+      ≤ 2 * (dr / (2 * (r + dr / 2))) ^ 3 / (1 - dr / (2 * (r + dr / 2))) :=
+  midpoint_log_cell r dr hr hdr
+
+/-- **profile_vs_log.** On the regular grid the discrete profile sum times `dr` is within the sum
+of the per-cell midpoint errors of `ln(r_{i+1}/r_1)`: the discrete steady solution follows the
+exact logarithmic profile to `O(dr²)` over a wall of fixed thickness (for the same face flux). -/
+theorem profile_vs_log (P : Prob ℝ) (rin : ℝ) (hrin : 0 < rin) (hdr : 0 < P.dr)
+    (hrr : ∀ i : Nat, P.rr i = rin + ((i : ℝ) - 1) * P.dr) (i : Nat) :
+    |P.dr * ∑ m ∈ Finset.Icc 1 i, 1 / P.rh m - Real.log (P.rr (i+1) / P.rr 1)|
+      ≤ ∑ m ∈ Finset.Icc 1 i,
+          2 * (P.dr / (2 * P.rh m)) ^ 3 / (1 - P.dr / (2 * P.rh m)) :=
+  profile_sum_vs_log P rin hrin hdr hrr i
 
 /-- fixed/fixed pairing: the constant face quantity is `(T_o − T_i)/Σ_{m=1}^{N-1} 1/r_{m+½}` -/
 theorem steady_fixed_fixed (P : Prob ℝ) (T : GField ℝ) (Φ : ℝ) (vi vo : Nat → Nat → ℝ)
